@@ -163,12 +163,12 @@ Definition check_bcase (c : bcase) : Z :=
   end.
 
 (* ---- C14 direct run *)
-Inductive astep := AOk (active : list nat) (peak : nat) | AErr.
+Inductive astep := AOk (active : list nat) (peak : nat) (mused : list nat) | AErr.
 Record acase := mkA { a_fd : bool; a_prog : block; a_steps : list astep }.
 
 Definition astep_eqb (m : stepres) (a : astep) : bool :=
   match m, a with
-  | StepOk act pk, AOk act' pk' => list_eqb Nat.eq_dec act act' && Nat.eqb pk pk'
+  | StepOk act pk mu, AOk act' pk' mu' => list_eqb Nat.eq_dec act act' && Nat.eqb pk pk' && list_eqb Nat.eq_dec mu mu'
   | StepErr EOutOfRegs, AErr => true
   | _, _ => false
   end.
